@@ -242,6 +242,11 @@ class Corr:
                 lexm[idx[1:]] = a
             else:
                 model[idx] = model_line_canon(a)
+                # hypothesis of SCP.VarInvariant on this line (the name in front of '=' is admissible), evaluated by the model
+                if a.endswith("LOK:1"):
+                    self.stats["name_hypothesis_holds"] = self.stats.get("name_hypothesis_holds", 0) + 1
+                elif a.endswith("LOK:0"):
+                    self.stats["name_hypothesis_fails"] = self.stats.get("name_hypothesis_fails", 0) + 1
         # ---- lexer tie: model tokens of the raw text vs the implementation's tokens ------------------
         for ci, (c, (start, ncfg, nlines)) in enumerate(zip(cases, layout)):
             for li in range(nlines):
